@@ -18,14 +18,19 @@ vars == <<l, nrej>>
 
 Init == l = 1 /\ nrej = 0
 
-Conform == /\ l <= Len(Rec)
-           /\ Accept(Rec[l], Prop)
-           /\ l' = l + 1 /\ nrej' = nrej
-Reject  == /\ l <= Len(Rec)
-           /\ ~Accept(Rec[l], Prop)
-           /\ PrintT(<<"REJECT", l, Deviation(Rec[l], Prop)>>)
-           /\ l' = l + 1 /\ nrej' = nrej + 1
-Next == Conform \/ Reject
+\* Verdict of one event: "ok" (a step of the specification under layer M), the name of the
+\* known deviation whose layer-A model reproduces it bit for bit, or "" (a violation).
+\* NB: the verdict is computed as a VALUE (Accept(..) = TRUE): inside an action TLC would otherwise
+\* treat every disjunction of Accept as a nondeterministic branch and evaluate all disjuncts.
+Verdict(e) == IF Accept(e, Prop) = TRUE THEN "ok" ELSE Deviation(e, Prop)
+
+Step == /\ l <= Len(Rec)
+        /\ l' = l + 1
+        /\ IF Verdict(Rec[l]) = "ok"
+           THEN nrej' = nrej                                         \* Conform
+           ELSE /\ PrintT(<<"REJECT", l, Verdict(Rec[l])>>)          \* KnownDeviation / Violation
+                /\ nrej' = nrej + 1
+Next == Step
 
 Consumed == IF TLCGet("stats").diameter = Len(Rec) + 1
             THEN PrintT(<<"CONSUMED", Len(Rec)>>)
